@@ -50,10 +50,11 @@ func runLinz(o Opts) *Result {
 		strategy := rng.Intn(3)
 		stress := o.Profile == "c08cleanup"
 		if stress {
-			kind = []string{"sync", "sync", "sharded", "shardedOf"}[idx%4]
+			kind = []string{"sync", "shardedOf", "sharded", "shardedOf"}[idx%4]
 		}
 		keysT := NewKeyTable()
-		b := NewBackend(BCfg{Kind: kind, TTL: cache.UnlimitedTTL, Jitter: Rat{-1, 1, -1}, Strategy: strategy, DEA: 30 * time.Minute, Name: "lz"}, keysT)
+		stats := NewStats()
+		b := NewBackend(BCfg{Kind: kind, TTL: cache.UnlimitedTTL, Jitter: Rat{-1, 1, -1}, Strategy: strategy, DEA: 30 * time.Minute, Name: "lz", Stats: stats}, keysT)
 		// key 1..3 plain, 4/5 a colliding pair (one slot on the sharded maps), 6/7 stable entries nobody touches
 		k64 := make([]byte, 64)
 		rng.Read(k64)
@@ -294,6 +295,28 @@ func runLinz(o Opts) *Result {
 		}
 		if w := walkErr.Load(); w != nil {
 			fail("C08", "walk", w.(string), "")
+		}
+		// C18 under concurrency: without batch deletions, cache_delete counts exactly the Deletes that reported success
+		okDeletes, batch := 0, false
+		for _, e := range events {
+			if strings.HasPrefix(e.op, "d:") && e.res == "ok" {
+				okDeletes++
+			}
+			if e.op == "da" || e.op == "cl" {
+				batch = true
+			}
+		}
+		if !batch && stats.Get(cache.MetricDelete, "lz") != okDeletes {
+			fail("C18", "delete-metric", fmt.Sprintf("%d Delete calls reported success but cache_delete=%d", okDeletes, stats.Get(cache.MetricDelete, "lz")), "")
+		}
+		nWrites := 2 + nFill
+		for _, e := range events {
+			if strings.HasPrefix(e.op, "w:") {
+				nWrites++
+			}
+		}
+		if stats.Get(cache.MetricWrite, "lz") != nWrites {
+			fail("C18", "write-metric", fmt.Sprintf("%d Writes but cache_write=%d", nWrites, stats.Get(cache.MetricWrite, "lz")), "")
 		}
 		// judge each slot
 		slots := map[int]bool{}
